@@ -151,19 +151,21 @@ theorem parseDecimal_wf (s : List UInt8) (f : Nat) (n : Number) (h : parseDecima
       split at h
       · cases h
       · rename_i hf
-        simp only at h
         split at h
         · cases h
-        · split at h
+        · simp only at h
+          split at h
           · cases h
-          · rename_i v hv
-            cases h
-            obtain ⟨h1, h2⟩ := strconvParseInt10_range _ _ hv
-            simp only [Bool.or_eq_true, decide_eq_true_eq, not_or, Nat.not_lt] at hf
-            refine ⟨rfl, by omega, by omega, ?_⟩
-            simp only [decide_eq_true_eq]
-            rw [toU64_abs v h1 h2, ← H_eq]
-            omega
+          · split at h
+            · cases h
+            · rename_i v hv
+              cases h
+              obtain ⟨h1, h2⟩ := strconvParseInt10_range _ _ hv
+              simp only [Bool.or_eq_true, decide_eq_true_eq, not_or, Nat.not_lt] at hf
+              refine ⟨rfl, by omega, by omega, ?_⟩
+              simp only [decide_eq_true_eq]
+              rw [toU64_abs v h1 h2, ← H_eq]
+              omega
 
 /-! ### digit strings -/
 
@@ -461,6 +463,37 @@ theorem dropDot_render (l : Lit) (hd : l.digitsOK) :
     rw [dropDot_app _ _ hpre, asc_append, List.append_assoc]
     simp [asc]
 
+/-- the guard of the repaired `decimalValueFromString` never fires on a literal `[sign] digits [. digits]` -/
+theorem signAfterDot_render (l : Lit) (hd : l.digitsOK) : signAfterDot l.render = false := by
+  have hpre : ∀ c ∈ signB l.sign ++ asc l.ip, c ≠ 46 := by
+    intro c hc
+    rcases List.mem_append.mp hc with h | h
+    · exact (signB_plain _ c h).2
+    · exact (asc_plain _ hd.1 c h).2
+  rw [render_eq]
+  unfold signAfterDot
+  cases hfp : l.fp with
+  | none =>
+    simp only [List.append_nil]
+    rw [indexDot_none _ hpre]
+  | some f =>
+    simp only
+    rw [indexDot_app _ _ hpre]
+    have h3 : List.drop ((signB l.sign ++ asc l.ip).length + 1) (signB l.sign ++ asc l.ip ++ 46 :: asc f) = asc f := by
+      rw [List.drop_append]
+      have e : (signB l.sign ++ asc l.ip).length + 1 - (signB l.sign ++ asc l.ip).length = 1 := by omega
+      rw [e, List.drop_eq_nil_of_le (by omega)]; rfl
+    simp only [h3]
+    have hf : ∀ d ∈ f, d < 10 := by
+      have := hd.2; rw [hfp] at this; simpa using this
+    cases f with
+    | nil => rfl
+    | cons d rest =>
+      have hd10 : d < 10 := hf d (by simp)
+      have h45 : (digitChar d == 45) = false := beq_eq_false_iff_ne.mpr (digitChar_ne d hd10 45 (by decide))
+      have h43 : (digitChar d == 43) = false := beq_eq_false_iff_ne.mpr (digitChar_ne d hd10 43 (by decide))
+      simp [asc, h45, h43]
+
 theorem space18_take (k : Nat) (h : k ≤ 18) : space18.take k = asc (List.replicate k 0) := by
   unfold space18 asc
   rw [List.take_replicate, List.map_replicate, Nat.min_eq_left h]
@@ -490,7 +523,7 @@ theorem decimalValueFromString_render (l : Lit) (f : Nat) (hd : l.digitsOK) (hf1
   have hH : H = 9223372036854775808 := rfl
   unfold decimalValueFromString
   have hbad : (decide (f > 18) || decide (f < 1)) = false := by simp; omega
-  simp only [hbad, Bool.false_eq_true, if_false, dropDot_render l hd]
+  simp only [hbad, Bool.false_eq_true, if_false, signAfterDot_render l hd, dropDot_render l hd]
   by_cases hsc : l.scale > f
   · simp [hsc]
   · simp only [hsc, if_false]
